@@ -31,6 +31,7 @@ type world struct {
 	v00   view
 	init  map[string]string
 	store string
+	pick  [2]view
 }
 
 func newWorld(store string, init map[string]string) *world {
@@ -184,6 +185,8 @@ type scenario struct {
 	init map[string]string
 	thr  []func(w *world)
 	thor bool
+	// views: the two threads' views are picked by the explorer (same object or different objects)
+	views bool
 }
 
 func scenarios() []*sched.Scenario {
@@ -240,6 +243,35 @@ func scenarios() []*sched.Scenario {
 			func(w *world) { w.iterate(4, w.root, "", false) },
 		}},
 	}
+	// every unordered pair of operations, one per thread, colliding on k1; which of the two overlapping views each
+	// thread uses (same view object or different ones) is a free choice of the explorer
+	type opdef struct {
+		name string
+		run  func(w *world, c int, v view)
+	}
+	rel := func(v view, rootKey string) string { return rootKey[len(v.realm):] }
+	ops := []opdef{
+		{"get", func(w *world, c int, v view) { w.get(c, v, rel(v, k1)) }},
+		{"has", func(w *world, c int, v view) { w.has(c, v, rel(v, k1)) }},
+		{"iterate", func(w *world, c int, v view) { w.iterate(c, v, "", false) }},
+		{"iteratekeys", func(w *world, c int, v view) { w.iterateKeys(c, v, "") }},
+		{"set", func(w *world, c int, v view) { w.set(c, v, rel(v, k1), "b") }},
+		{"delete", func(w *world, c int, v view) { w.del(c, v, rel(v, k1)) }},
+		{"deleteprefix", func(w *world, c int, v view) { w.delPrefix(c, v, rel(v, "\x00")) }},
+		{"clear", func(w *world, c int, v view) { w.clear(c, v) }},
+		{"batch", func(w *world, c int, v view) {
+			w.batch(c, v, bop{key: rel(v, k1), val: "c"}, bop{del: true, key: rel(v, k2)})
+		}},
+	}
+	for i, a := range ops {
+		for _, b := range ops[i:] {
+			a, b := a, b
+			defs = append(defs, scenario{name: "pair/" + a.name + "-vs-" + b.name, init: map[string]string{k1: "a", k2: "a", "\x01": "x"}, views: true, thr: []func(w *world){
+				func(w *world) { a.run(w, 1, w.pick[0]) },
+				func(w *world) { b.run(w, 2, w.pick[1]) },
+			}})
+		}
+	}
 	var out []*sched.Scenario
 	for _, store := range []string{"mapdb", "flushkv"} {
 		for _, d := range defs {
@@ -249,6 +281,11 @@ func scenarios() []*sched.Scenario {
 				ThoroughOnly: d.thor,
 				Run: func() {
 					w := newWorld(store, d.init)
+					if d.views {
+						vs := []view{w.root, w.v00}
+						c := vrt.Choose(4, 0)
+						w.pick = [2]view{vs[c&1], vs[c>>1]}
+					}
 					var fs []func()
 					for _, f := range d.thr {
 						f := f
@@ -291,6 +328,9 @@ func racePart() *cli.Part {
 			}
 			raw, _ := json.Marshal(map[string]any{"report": string(out)})
 			pr.Violations = append(pr.Violations, &cli.Violation{Part: "race-pass", Engine: "R", Signature: "data-race|" + strings.Join(frames, "|"), Message: "the Go race detector reported a data race:\n" + tailStr(string(out), 1500), Replay: raw})
+		} else if ok && ee.ExitCode() == 67 {
+			raw, _ := json.Marshal(map[string]any{"report": tailStr(string(out), 6000)})
+			pr.Violations = append(pr.Violations, &cli.Violation{Part: "race-pass", Engine: "R", Signature: "free-run|hang", Message: "a round of the free-running pass made no progress for 30 s (normally milliseconds): deadlock among the store's callers\n" + tailStr(string(out), 3000), Replay: raw})
 		} else if err != nil {
 			pr.Error = "race binary failed: " + err.Error() + ": " + tailStr(string(out), 400)
 		}
@@ -310,7 +350,7 @@ func main() {
 		ID: "C05", Level: "model_checking", Scenarios: scenarios(), Parts: []*cli.Part{racePart()},
 		QuickBound: 2, ThoroughBound: 3, QuickUnbounded: true, ThoroughUnbounded: true, Cache: true, QuickSecs: 45, ThoroughSecs: 900,
 		RaceHB: &cli.RaceHB{QuickBound: 1, ThoroughBound: 2, ThoroughUnbounded: true},
-		Rule: "every interleaving with at most b preemptions (thorough: additionally all interleavings with state caching) of 2-4 threads issuing 1-2 operations each through two overlapping views of one store (mapdb and flushkv over mapdb); each complete execution's call/return history is checked with porcupine against the ordered-map model (committed batch = one atomic write per key inside the Commit interval, Iterate = atomic snapshot); distinct = distinct (outcome, observation log)",
+		Rule:   "every interleaving with at most b preemptions (thorough: additionally all interleavings with state caching) of 2-4 threads issuing 1-2 operations each through two overlapping views of one store (mapdb and flushkv over mapdb); each complete execution's call/return history is checked with porcupine against the ordered-map model (committed batch = one atomic write per key inside the Commit interval, Iterate = atomic snapshot); distinct = distinct (outcome, observation log)",
 		Assumptions: []string{
 			"vsync/vatomic shims model sync faithfully (selftest); sequential consistency",
 			"map iteration order inside batch Commit is owned by the explorer (vinstr mapRanges)",
